@@ -37,7 +37,11 @@ EXT = {
     # ---- stdlib
     'time.time': 'scalar', 'math.exp': 'scalar', 'math.log': 'scalar', 'math.sqrt': 'scalar',
     'warnings.warn': 'scalar', 'warnings.filterwarnings': 'scalar', 'glob.glob': 'scalar',
-    'os.getenv': 'scalar', 'os.makedirs': 'scalar', 'os.remove': 'scalar', 'os.listdir': 'scalar',
+    'os.getenv': 'scalar', 'os.getpid': 'scalar', 'os.replace': 'scalar', 'os.rename': 'scalar', 'os.unlink': 'scalar',
+    'os.rmdir': 'scalar', 'os.fsync': 'scalar', 'os.path.abspath': 'scalar', 'os.path.splitext': 'scalar',
+    'os.path.getsize': 'scalar', 'tempfile.mkstemp': 'scalar', 'tempfile.mkdtemp': 'scalar',
+    'tempfile.NamedTemporaryFile': 'scalar', 'os.close': 'scalar', 'os.fdopen': 'scalar',
+    'builtins.BaseException': 'scalar', 'os.makedirs': 'scalar', 'os.remove': 'scalar', 'os.listdir': 'scalar',
     'os.path.join': 'scalar', 'os.path.exists': 'scalar', 'os.path.expanduser': 'scalar',
     'os.path.basename': 'scalar', 'os.path.isdir': 'scalar', 'os.path.isfile': 'scalar', 'os.path.dirname': 'scalar',
     'sys.stdout.flush': 'scalar', 'sys.modules.get': 'scalar', 're.compile': 'scalar', 're.match': 'scalar',
